@@ -28,7 +28,7 @@ def run_virtual(coro, until):
         except BaseException: pass
         loop.close()
 
-async def scenario(ev, A, P, N, backlog, durs, stop_at, wtt, arrivals=None):
+async def scenario(ev, A, P, N, backlog, durs, stop_at, wtt, arrivals=None, fault=None):
     from taskiq.abc.broker import AsyncBroker
     from taskiq.receiver import Receiver
     from taskiq import AckableMessage
@@ -41,8 +41,13 @@ async def scenario(ev, A, P, N, backlog, durs, stop_at, wtt, arrivals=None):
             n = 0
             while True:
                 m = await self.q.get(); i = n; n += 1
+                if fault == 'sentinel_payload' and i == 2:
+                    ev.append(('malformed', -1, loop.time())); yield b"-1"          # a malformed raw message (delivered before message 2) whose payload happens to equal the internal end-of-stream marker
                 ev.append(('taken', i, loop.time()))
-                yield AckableMessage(data=m, ack=(lambda i=i: ev.append(('acked', i, loop.time()))))
+                def ack(i=i):
+                    ev.append(('acked', i, loop.time()))
+                    if fault == 'ack_raises' and i % 2 == 0: raise ConnectionError("connection to the broker was lost on ack")
+                yield AckableMessage(data=m, ack=ack)
     b = B()
     @b.task(task_name="t")
     async def t(i: int):
@@ -88,6 +93,9 @@ def evaluate(cfg, ev, hung):
     dup = [i for i, n in c.items() if n > 1]
     if dup: f.append(f"C01: messages {dup} executed more than once")
     finite = all(d < NEVER for d in durs)
+    if returned is not None and stop is not None and finite and not N and stop_at >= 50.0 and max(durs) * backlog < stop_at * (A or backlog):
+        never = [i for i in range(backlog) if i not in c]
+        if never: f.append(f"C01/C03: messages {never} were never executed although the broker held them long before the stop request (worker stalled)")
     if returned is not None:
         lost = [e[1] for e in taken if e[1] not in c]
         if lost: f.append(f"C01/C05: messages {lost} were taken from the broker but never executed (taken {len(taken)}, executed {len(c)})")
@@ -121,11 +129,14 @@ def run(sc):
                         for wtt in ([5.0] if hasT else [None] if hasT is False else [None, 5.0]):
                             for arrivals in (None, [0.0, 0.25, 3.0]):
                                 if stop_at is None and not N: continue
-                                cfgs.append(dict(A=A, P=P, N=N or None, backlog=(A or 3) + P + (N or 0) + 5, durs=durs, stop_at=stop_at, wtt=wtt, arrivals=arrivals))
+                                cfgs.append(dict(A=A, P=P, N=N or None, backlog=(A or 3) + P + (N or 0) + 5, durs=durs, stop_at=stop_at, wtt=wtt, arrivals=arrivals, fault=None))
+                                if arrivals is None and durs in ([1.0], [0.5, 30.0, 2.0]) and wtt is None and stop_at in (50.0, 1000.2):
+                                    for fault in ('sentinel_payload', 'ack_raises'):
+                                        cfgs.append(dict(A=A, P=P, N=N or None, backlog=(A or 3) + P + (N or 0) + 5, durs=durs, stop_at=stop_at, wtt=wtt, arrivals=arrivals, fault=fault))
     fails = []; n = 0; stats = []
     for cfg in cfgs:
         ev = []; hung = False
-        try: run_virtual(scenario(ev, cfg['A'], cfg['P'], cfg['N'], cfg['backlog'], cfg['durs'], cfg['stop_at'], cfg['wtt'], cfg['arrivals']), until=10 ** 7)
+        try: run_virtual(scenario(ev, cfg['A'], cfg['P'], cfg['N'], cfg['backlog'], cfg['durs'], cfg['stop_at'], cfg['wtt'], cfg['arrivals'], cfg.get('fault')), until=10 ** 7)
         except asyncio.TimeoutError: hung = True
         except RuntimeError as ex:
             if 'idle forever' in str(ex): hung = True
